@@ -250,7 +250,7 @@ fn run_grevm(
             let (outcomes, mut state) = scheduler.take_result_and_state();
             match res {
                 Err(e) => Err(format!(
-                    "execute() error at tx {} after {} outcomes: {:?}",
+                    "[execute_error] execute() error at tx {} after {} outcomes: {:?}",
                     e.txid,
                     outcomes.len(),
                     e.error
@@ -260,12 +260,12 @@ fn run_grevm(
         }));
         let _ = send.send(match r {
             Ok(v) => v,
-            Err(p) => Err(format!("panicked: {}", panic_message(p))),
+            Err(p) => Err(format!("[panic] panicked: {}", panic_message(p))),
         });
     });
     match recv.recv_timeout(Duration::from_secs(HANG_SECS)) {
         Ok(v) => v,
-        Err(_) => Err(format!("no result within {HANG_SECS}s (hang)")),
+        Err(_) => Err(format!("[hang] no result within {HANG_SECS}s")),
     }
 }
 
@@ -282,38 +282,45 @@ fn short<T: fmt::Debug>(t: &T) -> String {
 fn cmp_outcomes(exp: &[TxExecutionOutcome], act: &[TxExecutionOutcome]) -> Result<(), String> {
     for (i, (e, a)) in exp.iter().zip(act.iter()).enumerate() {
         if e != a {
-            return Err(format!("outcome tx {i}: oracle {} grevm {}", short(e), short(a)));
+            return Err(format!("[outcome] tx {i}: oracle {} grevm {}", short(e), short(a)));
         }
     }
     if exp.len() != act.len() {
-        return Err(format!("outcome count: oracle {} grevm {}", exp.len(), act.len()));
+        return Err(format!("[outcome] count: oracle {} grevm {}", exp.len(), act.len()));
     }
     Ok(())
 }
 
-fn cmp_bundle(exp: &BundleState, act: &BundleState) -> Result<(), String> {
-    // contracts: same key set (and the same bytes under each key)
+/// `bundle.contracts`: same key set (and the same bytes under each key).
+fn cmp_contracts(exp: &BundleState, act: &BundleState) -> Result<(), String> {
     let ec: BTreeSet<&B256> = exp.contracts.keys().collect();
     let ac: BTreeSet<&B256> = act.contracts.keys().collect();
     if ec != ac {
-        return Err(format!("bundle.contracts keys: oracle {} grevm {}", short(&ec), short(&ac)));
+        let only_o: Vec<_> = ec.difference(&ac).collect();
+        let only_g: Vec<_> = ac.difference(&ec).collect();
+        return Err(format!(
+            "[contracts_keys] bundle.contracts keys: only-oracle {} only-grevm {}",
+            short(&only_o),
+            short(&only_g)
+        ));
     }
     for (h, code) in exp.contracts.iter() {
         if code.original_bytes() != act.contracts[h].original_bytes() {
-            return Err(format!("bundle.contracts[{h}] bytes differ"));
+            return Err(format!("[contracts_bytes] bundle.contracts[{h}] bytes differ"));
         }
     }
+    Ok(())
+}
 
-    // state: same key set, then per account
+/// `bundle.state`: same key set, then per account info / original_info / status / storage.
+fn cmp_state(exp: &BundleState, act: &BundleState) -> Result<(), String> {
     let es: BTreeMap<&Address, &BundleAccount> = exp.state.iter().collect();
     let as_: BTreeMap<&Address, &BundleAccount> = act.state.iter().collect();
-    let ek: Vec<&&Address> = es.keys().collect();
-    let ak: Vec<&&Address> = as_.keys().collect();
-    if ek != ak {
-        let only_o: Vec<_> = es.keys().filter(|k| !as_.contains_key(**k)).collect();
-        let only_g: Vec<_> = as_.keys().filter(|k| !es.contains_key(**k)).collect();
+    let only_o: Vec<_> = es.keys().filter(|k| !as_.contains_key(**k)).collect();
+    let only_g: Vec<_> = as_.keys().filter(|k| !es.contains_key(**k)).collect();
+    if !only_o.is_empty() || !only_g.is_empty() {
         return Err(format!(
-            "bundle.state keys: only-oracle {} only-grevm {}",
+            "[state_keys] bundle.state keys: only-oracle {} only-grevm {}",
             short(&only_o),
             short(&only_g)
         ));
@@ -321,17 +328,24 @@ fn cmp_bundle(exp: &BundleState, act: &BundleState) -> Result<(), String> {
     for (addr, e) in es.iter() {
         let a = as_[*addr];
         if e.info != a.info {
-            return Err(format!("{addr} info: oracle {} grevm {}", short(&e.info), short(&a.info)));
+            return Err(format!(
+                "[info] {addr} info: oracle {} grevm {}",
+                short(&e.info),
+                short(&a.info)
+            ));
         }
         if e.original_info != a.original_info {
             return Err(format!(
-                "{addr} original_info: oracle {} grevm {}",
+                "[original_info] {addr} original_info: oracle {} grevm {}",
                 short(&e.original_info),
                 short(&a.original_info)
             ));
         }
         if e.status != a.status {
-            return Err(format!("{addr} status: oracle {:?} grevm {:?}", e.status, a.status));
+            return Err(format!(
+                "[status] {addr} status: oracle {:?} grevm {:?}",
+                e.status, a.status
+            ));
         }
         let est: BTreeMap<&U256, &StorageSlot> = e.storage.iter().collect();
         let ast: BTreeMap<&U256, &StorageSlot> = a.storage.iter().collect();
@@ -339,11 +353,14 @@ fn cmp_bundle(exp: &BundleState, act: &BundleState) -> Result<(), String> {
             for (k, v) in est.iter() {
                 match ast.get(*k) {
                     None => {
-                        return Err(format!("{addr} storage slot {k}: oracle {} grevm <absent>", short(v)));
+                        return Err(format!(
+                            "[storage] {addr} slot {k}: oracle {} grevm <absent>",
+                            short(v)
+                        ));
                     }
                     Some(w) if w != v => {
                         return Err(format!(
-                            "{addr} storage slot {k}: oracle {} grevm {}",
+                            "[storage] {addr} slot {k}: oracle {} grevm {}",
                             short(v),
                             short(w)
                         ));
@@ -353,17 +370,23 @@ fn cmp_bundle(exp: &BundleState, act: &BundleState) -> Result<(), String> {
             }
             for (k, w) in ast.iter() {
                 if !est.contains_key(*k) {
-                    return Err(format!("{addr} storage slot {k}: oracle <absent> grevm {}", short(w)));
+                    return Err(format!(
+                        "[storage] {addr} slot {k}: oracle <absent> grevm {}",
+                        short(w)
+                    ));
                 }
             }
-            return Err(format!("{addr} storage maps differ"));
+            return Err(format!("[storage] {addr} storage maps differ"));
         }
     }
+    Ok(())
+}
 
-    // reverts: per transition index as address-keyed maps
+/// `bundle.reverts`: per transition index as address-keyed maps.
+fn cmp_reverts(exp: &BundleState, act: &BundleState) -> Result<(), String> {
     if exp.reverts.len() != act.reverts.len() {
         return Err(format!(
-            "reverts length: oracle {} grevm {}",
+            "[reverts] length: oracle {} grevm {}",
             exp.reverts.len(),
             act.reverts.len()
         ));
@@ -373,7 +396,7 @@ fn cmp_bundle(exp: &BundleState, act: &BundleState) -> Result<(), String> {
         let am: BTreeMap<&Address, &AccountRevert> = ar.iter().map(|(k, v)| (k, v)).collect();
         if em.len() != er.len() || am.len() != ar.len() {
             return Err(format!(
-                "reverts[{i}] duplicate address: oracle {}/{} grevm {}/{}",
+                "[reverts] reverts[{i}] duplicate address: oracle {}/{} grevm {}/{}",
                 em.len(),
                 er.len(),
                 am.len(),
@@ -382,10 +405,15 @@ fn cmp_bundle(exp: &BundleState, act: &BundleState) -> Result<(), String> {
         }
         for (addr, v) in em.iter() {
             match am.get(*addr) {
-                None => return Err(format!("reverts[{i}] {addr}: oracle {} grevm <absent>", short(v))),
+                None => {
+                    return Err(format!(
+                        "[reverts] reverts[{i}] {addr}: oracle {} grevm <absent>",
+                        short(v)
+                    ));
+                }
                 Some(w) if w != v => {
                     return Err(format!(
-                        "reverts[{i}] {addr}: oracle {} grevm {}",
+                        "[reverts] reverts[{i}] {addr}: oracle {} grevm {}",
                         short(v),
                         short(w)
                     ));
@@ -395,23 +423,47 @@ fn cmp_bundle(exp: &BundleState, act: &BundleState) -> Result<(), String> {
         }
         for (addr, w) in am.iter() {
             if !em.contains_key(*addr) {
-                return Err(format!("reverts[{i}] {addr}: oracle <absent> grevm {}", short(w)));
+                return Err(format!(
+                    "[reverts] reverts[{i}] {addr}: oracle <absent> grevm {}",
+                    short(w)
+                ));
             }
         }
-    }
-
-    if exp.state_size != act.state_size {
-        return Err(format!("state_size: oracle {} grevm {}", exp.state_size, act.state_size));
-    }
-    if exp.reverts_size != act.reverts_size {
-        return Err(format!("reverts_size: oracle {} grevm {}", exp.reverts_size, act.reverts_size));
     }
     Ok(())
 }
 
+fn cmp_sizes(exp: &BundleState, act: &BundleState) -> Result<(), String> {
+    if exp.state_size != act.state_size {
+        return Err(format!(
+            "[sizes] state_size: oracle {} grevm {}",
+            exp.state_size, act.state_size
+        ));
+    }
+    if exp.reverts_size != act.reverts_size {
+        return Err(format!(
+            "[sizes] reverts_size: oracle {} grevm {}",
+            exp.reverts_size, act.reverts_size
+        ));
+    }
+    Ok(())
+}
+
+/// Strict comparison of one grevm run against the oracle. Every section is checked (none masks
+/// another); the message lists the first difference of each differing section, each prefixed by
+/// its `[class]`.
 fn cmp_run(exp: &RunOutput, act: &RunOutput) -> Result<(), String> {
-    cmp_outcomes(&exp.0, &act.0)?;
-    cmp_bundle(&exp.1, &act.1)
+    let diffs: Vec<String> = [
+        cmp_outcomes(&exp.0, &act.0),
+        cmp_state(&exp.1, &act.1),
+        cmp_reverts(&exp.1, &act.1),
+        cmp_sizes(&exp.1, &act.1),
+        cmp_contracts(&exp.1, &act.1),
+    ]
+    .into_iter()
+    .filter_map(Result::err)
+    .collect();
+    if diffs.is_empty() { Ok(()) } else { Err(diffs.join(" & ")) }
 }
 
 // ------------------------------------------------------------------------------------------------
@@ -628,7 +680,8 @@ const ALL_SPECS: [SpecId; 13] = [
     SpecId::OSAKA,
 ];
 
-const DESTROY_FEATS: [&str; 11] = [
+const DESTROY_FEATS: [&str; 12] = [
+    "invalid_tx_skipped",
     "destroy",
     "create",
     "recreate_same_address",
@@ -642,7 +695,8 @@ const DESTROY_FEATS: [&str; 11] = [
     "storage_rw_after_recreate",
 ];
 
-const CODE_FEATS: [&str; 16] = [
+const CODE_FEATS: [&str; 17] = [
+    "invalid_sender_nonce",
     "deploy",
     "delegation_set",
     "re_point",
@@ -827,9 +881,19 @@ fn gen_destroy(rng: &mut Rng) -> Case {
     let mut tdesc = Vec::new();
     let mut destroyed_before = vec![false; nv]; // a destroy intent happened on victim earlier
     let mut recreated = vec![false; nv];
+    // a few blocks carry one transaction the oracle rejects (value above the sender's balance)
+    let broke_at: Option<usize> =
+        if rng.chance(3, 20) { Some(rng.below(n as u64) as usize) } else { None };
     for i in 0..n {
         let gp: u128 = if rng.chance(1, 4) { 0 } else { 1 };
         let gpm = if gp == 0 { "~" } else { "" };
+        if broke_at == Some(i) && !(0..nv).any(|vi| recreate[vi] == Recreate::CreateTx(i)) {
+            let vi = rng.below(nv as u64) as usize;
+            feats.insert("invalid_tx_skipped");
+            txs.push(call_tx(i, vaddr[vi], &[0x01], 2 * ONE_ETHER as u64, gp));
+            tdesc.push(format!("{i}:broke(V{vi}){gpm}"));
+            continue;
+        }
         // forced CREATE tx of a victim
         if let Some(vi) = (0..nv).find(|&vi| recreate[vi] == Recreate::CreateTx(i)) {
             txs.push(create_tx(i, inits[vi].clone(), gp));
@@ -918,7 +982,10 @@ fn gen_destroy(rng: &mut Rng) -> Case {
                     abs[fv] = Abs::Counter(0x36);
                     recreated[fv] = destroyed_before[fv];
                 }
-                txs.push(call_tx(i, addr(920_000 + fv as u64), &[], 0, gp));
+                // enough gas that 1/64 survives a CREATE2 collision and still pays the SSTORE
+                let mut tx = call_tx(i, addr(920_000 + fv as u64), &[], 0, gp);
+                tx.gas_limit = 3_000_000;
+                txs.push(tx);
                 tdesc.push(format!("{i}:f(V{fv}){gpm}"));
             } else {
                 feats.insert("create");
@@ -942,7 +1009,9 @@ fn gen_destroy(rng: &mut Rng) -> Case {
             feats.insert("create");
             feats.insert("create_destroy_one_tx");
             feats.insert("destroy");
-            txs.push(call_tx(i, kill_factory, &[], 0, gp));
+            let mut tx = call_tx(i, kill_factory, &[], 0, gp);
+            tx.gas_limit = 3_000_000;
+            txs.push(tx);
             tdesc.push(format!("{i}:fk{gpm}"));
         } else if has_create2 {
             txs.push(call_tx(i, addr(945_000), &[], 0, gp));
@@ -1017,10 +1086,17 @@ fn gen_code(rng: &mut Rng) -> Case {
             st.push(AuthState { nonce: 5, current: Some(target_x()), history: vec![target_x()] });
             adesc.push(format!("{name}=pre(X)#5"));
         } else if roll < 50 {
+            // An EOA that was delegated in an earlier block, wrote storage and cleared again:
+            // nonce > 0, no code, storage. (With nonce 0 the fixture would be a state that cannot
+            // exist for a key-controlled account; stock revm then treats the account as "fully in
+            // memory" after its first change and answers 0 for its storage without asking the DB,
+            // so the oracle itself would disagree with the base DB. `FLATBLOCK_NONCE0_STORAGE=1`
+            // re-enables that fixture for experiments.)
+            let n0 = if std::env::var_os("FLATBLOCK_NONCE0_STORAGE").is_some() { 0 } else { 3 };
             feats.insert("authority_with_storage");
-            db.put_eoa(a, ONE_ETHER, 0, &[(0, 42), (7, 3)]);
-            st.push(AuthState { nonce: 0, current: None, history: vec![] });
-            adesc.push(format!("{name}=stor"));
+            db.put_eoa(a, ONE_ETHER, n0, &[(0, 42), (7, 3)]);
+            st.push(AuthState { nonce: n0, current: None, history: vec![] });
+            adesc.push(format!("{name}=stor#{n0}"));
         } else {
             db.put_eoa(a, ONE_ETHER, 0, &[]);
             st.push(AuthState { nonce: 0, current: None, history: vec![] });
@@ -1067,7 +1143,7 @@ fn gen_code(rng: &mut Rng) -> Case {
     };
 
     // builds 1..3 authorisation tuples, updating the tracked authority state
-    let mut build_auths = |rng: &mut Rng,
+    let build_auths = |rng: &mut Rng,
                            st: &mut Vec<AuthState>,
                            feats: &mut BTreeSet<&'static str>,
                            self_sponsor: Option<usize>|
@@ -1247,8 +1323,15 @@ fn gen_code(rng: &mut Rng) -> Case {
             if st[ai].current.is_some() {
                 feats.insert("tx_from_delegated_account");
             }
-            let tx_nonce = st[ai].nonce;
-            st[ai].nonce += 1;
+            // sometimes with a stale / future sender nonce: the oracle skips it, so must grevm
+            let bad_nonce = rng.chance(3, 20);
+            let tx_nonce = if bad_nonce {
+                feats.insert("invalid_sender_nonce");
+                if st[ai].nonce > 0 && rng.chance(1, 2) { st[ai].nonce - 1 } else { st[ai].nonce + 2 }
+            } else {
+                st[ai].nonce += 1;
+                st[ai].nonce - 1
+            };
             let other = authority(1 - ai);
             let (to, tn) = if rng.chance(2, 3) {
                 (receiver(), "R".to_owned())
@@ -1267,7 +1350,11 @@ fn gen_code(rng: &mut Rng) -> Case {
                 nonce: tx_nonce,
                 ..TxEnv::default()
             });
-            tdesc.push(format!("{i}:from({}#{tx_nonce})->{tn}{gpm}", names[ai]));
+            tdesc.push(format!(
+                "{i}:from({}#{tx_nonce}{})->{tn}{gpm}",
+                names[ai],
+                if bad_nonce { "!n" } else { "" }
+            ));
         } else if !deploy_info.is_empty() {
             let (k, d, ..) = deploy_info[rng.below(deploy_info.len() as u64) as usize].clone();
             if roll < 90 {
@@ -1327,6 +1414,10 @@ struct Stats {
     tx_skipped: u64,
     txs: u64,
     grevm_runs: u64,
+    /// number of cases whose MISMATCH text contains a difference of this `[class]`
+    classes: BTreeMap<String, u64>,
+    /// per run kind: cases where that run differed
+    by_run: BTreeMap<&'static str, u64>,
 }
 
 fn status_name(s: AccountStatus) -> Option<&'static str> {
@@ -1345,6 +1436,36 @@ fn json_map<K: fmt::Display>(m: &BTreeMap<K, u64>) -> String {
     format!("{{{}}}", items.join(","))
 }
 
+/// Debug aid (`FLATBLOCK_DUMP=1`, meant for `only_index` replays): full outcomes and bundle on stderr.
+fn dump_run(label: &str, run: &RunOutput) {
+    eprintln!("==== {label}: outcomes");
+    for (i, o) in run.0.iter().enumerate() {
+        eprintln!("  tx {i}: {o:?}");
+    }
+    eprintln!("==== {label}: bundle.state");
+    let st: BTreeMap<&Address, &BundleAccount> = run.1.state.iter().collect();
+    for (a, acc) in st {
+        let storage: BTreeMap<&U256, &StorageSlot> = acc.storage.iter().collect();
+        eprintln!(
+            "  {a} status={:?} info={:?} original={:?} storage={:?}",
+            acc.status,
+            acc.info.as_ref().map(|i| (i.balance, i.nonce, i.code_hash)),
+            acc.original_info.as_ref().map(|i| (i.balance, i.nonce, i.code_hash)),
+            storage
+        );
+    }
+    eprintln!("==== {label}: contracts {:?}", run.1.contracts.keys().collect::<BTreeSet<_>>());
+    eprintln!("==== {label}: reverts {:?}", run.1.reverts);
+}
+
+fn cmp_and_dump(oracle: &RunOutput, out: &RunOutput, label: &str) -> Result<(), String> {
+    let r = cmp_run(oracle, out);
+    if r.is_err() && std::env::var_os("FLATBLOCK_DUMP").is_some() {
+        dump_run(label, out);
+    }
+    r
+}
+
 /// Runs one case; returns the text after `=> `.
 fn run_case(case: &Case, delay_seeds: [u64; 2], stats: &mut Stats) -> String {
     let mut cfg = CfgEnv::new_with_spec(case.spec);
@@ -1359,6 +1480,9 @@ fn run_case(case: &Case, delay_seeds: [u64; 2], stats: &mut Stats) -> String {
         Ok(o) => o,
         Err(e) => return format!("ORACLE_ERROR {e}"),
     };
+    if std::env::var_os("FLATBLOCK_DUMP").is_some() {
+        dump_run("oracle", &oracle);
+    }
     for o in &oracle.0 {
         match o {
             TxExecutionOutcome::Executed(ExecutionResult::Success { .. }) => stats.tx_success += 1,
@@ -1389,7 +1513,7 @@ fn run_case(case: &Case, delay_seeds: [u64; 2], stats: &mut Stats) -> String {
         stats.grevm_runs += 1;
         let db = DelayDb::new(mem.clone(), hot.clone(), *seed | 1);
         let res = run_grevm(db, cfg.clone(), env.clone(), txs.clone(), gcfg(false))
-            .and_then(|out| cmp_run(&oracle, &out));
+            .and_then(|out| cmp_and_dump(&oracle, &out, &format!("parallel run{r}")));
         if let Err(e) = res {
             problems.push(format!("parallel run{r} delay_seed={} {e}", *seed | 1));
         }
@@ -1397,7 +1521,7 @@ fn run_case(case: &Case, delay_seeds: [u64; 2], stats: &mut Stats) -> String {
     stats.grevm_runs += 1;
     let db = DelayDb::new(mem.clone(), hot.clone(), 0);
     let res = run_grevm(db, cfg.clone(), env.clone(), txs.clone(), gcfg(true))
-        .and_then(|out| cmp_run(&oracle, &out));
+        .and_then(|out| cmp_and_dump(&oracle, &out, "forced_sequential"));
     if let Err(e) = res {
         problems.push(format!("forced_sequential {e}"));
     }
@@ -1452,6 +1576,18 @@ fn real_main() -> Result<(), String> {
         }
         let case = if kind == "destroy" { gen_destroy(&mut rng) } else { gen_code(&mut rng) };
         let delay_seeds = [rng.next(), rng.next()];
+        // Minimisation aid for replays: FLATBLOCK_KEEP=0,3,5 keeps only these tx indices (each tx
+        // keeps its own sender, base DB unchanged).
+        let mut case = case;
+        if let Some(keep) = std::env::var("FLATBLOCK_KEEP").ok().filter(|_| only.is_some()) {
+            let keep: BTreeSet<usize> = keep.split(',').filter_map(|t| t.trim().parse().ok()).collect();
+            let mut i = 0;
+            case.txs.retain(|_| {
+                i += 1;
+                keep.contains(&(i - 1))
+            });
+            case.desc = format!("{} [kept txs {:?}]", case.desc, keep);
+        }
         stats.cases += 1;
         *stats.specs.entry(format!("{:?}", case.spec)).or_default() += 1;
         for f in &case.feats {
@@ -1460,6 +1596,25 @@ fn real_main() -> Result<(), String> {
         let verdict = run_case(&case, delay_seeds, &mut stats);
         if !verdict.starts_with("OK") {
             stats.mismatches += 1;
+            let mut classes: BTreeSet<String> = BTreeSet::new();
+            for part in verdict.split('[').skip(1) {
+                if let Some((c, _)) = part.split_once(']') {
+                    if !c.is_empty() && c.chars().all(|ch| ch.is_ascii_lowercase() || ch == '_') {
+                        classes.insert(c.to_owned());
+                    }
+                }
+            }
+            if verdict.starts_with("ORACLE_ERROR") {
+                classes.insert("oracle_error".to_owned());
+            }
+            for c in classes {
+                *stats.classes.entry(c).or_default() += 1;
+            }
+            for run in ["parallel", "forced_sequential"] {
+                if verdict.split(" || ").any(|p| p.trim_start_matches("MISMATCH ").starts_with(run)) {
+                    *stats.by_run.entry(run).or_default() += 1;
+                }
+            }
         }
         let line = format!(
             "{index} {:?} {} {} {} => {verdict}",
@@ -1476,9 +1631,11 @@ fn real_main() -> Result<(), String> {
     }
     let wall = started.elapsed().as_secs_f64();
     println!(
-        "{{\"kind\":\"{kind}\",\"seed\":{seed},\"cases\":{},\"mismatches\":{},\"specs\":{},\"features\":{},\"status_bundles\":{},\"txs\":{{\"total\":{},\"success\":{},\"revert\":{},\"halt\":{},\"skipped_invalid\":{}}},\"grevm_runs\":{},\"cases_file\":\"{}\",\"wall_seconds\":{:.3}}}",
+        "{{\"kind\":\"{kind}\",\"seed\":{seed},\"cases\":{},\"mismatches\":{},\"mismatch_classes\":{},\"mismatch_runs\":{},\"specs\":{},\"features\":{},\"status_bundles\":{},\"txs\":{{\"total\":{},\"success\":{},\"revert\":{},\"halt\":{},\"skipped_invalid\":{}}},\"grevm_runs\":{},\"cases_file\":\"{}\",\"wall_seconds\":{:.3}}}",
         stats.cases,
         stats.mismatches,
+        json_map(&stats.classes),
+        json_map(&stats.by_run),
         json_map(&stats.specs),
         json_map(&stats.feats),
         json_map(&stats.statuses),
